@@ -220,8 +220,13 @@ def variants(ctx, fam):
     from hgmon import ref
 
     outs = [e for ns in spec["nodes"] for e in ref.data_output_names(ns)]
-    if outs and fam["family"] in ("gated", "dag", "nested"):
-        sel = [rng.choice(outs)]
+    if outs and fam["family"] in ("gated", "dag", "nested", "cached", "compose"):
+        # prefer a name that this very execution does NOT produce (the branch not taken): the run's nodes all
+        # succeed and the failure arises afterwards, while the result is assembled
+        probe = core.execute(core.with_async(spec, False), inputs, "sync", select="**", **kw)
+        unproduced = [e for e in outs if probe.exc is None and e not in (probe.values or {})]
+        sel = [rng.choice(unproduced or outs)]
+        ctx.obs["post_execution_failures_planned"] += int(bool(unproduced))
         for runner in ("sync", "async"):
             o = core.execute(core.with_async(spec, runner == "async", rng), inputs, runner, processors=[(Rec if runner == "sync" else ARec)("p")], select=sel, on_missing="error", error_handling=rng.choice(["raise", "continue"]))
             check_stream(ctx, o, spec, "p", f"{runner}-on_missing_error", {**case, "select": sel})
@@ -236,15 +241,19 @@ def variants(ctx, fam):
     return nstreams
 
 
-def map_call(ctx, i):
+def map_call(ctx, i, force_n=None):
     rng = ctx.rng
     fam = families.dag(rng)
     spec, inputs = fam["spec"], dict(fam["inputs"])
     cands = [k for k in inputs]
+    while not cands and force_n is not None:
+        fam = families.dag(rng)
+        spec, inputs = fam["spec"], dict(fam["inputs"])
+        cands = [k for k in inputs]
     if not cands:
         return
     over = rng.choice(cands)
-    n = rng.randint(0, 3)
+    n = rng.randint(0, 3) if force_n is None else force_n
     inputs[over] = [f"{over}:{j}" for j in range(n)]
     Rec, ARec = rt.make_processors()
     fids = [f for f, ns in all_fids(spec).items() if ns["k"] == "fn"]
@@ -314,6 +323,18 @@ def run(ctx):
         ctx.case("r1")
         ctx.case("r2")
         return
+    if ctx.shard[0] == 0:
+        # directed: an if/else program with the output of the branch not taken selected under on_missing='error',
+        # and a top-level map() over nothing
+        for flag in (0, 1):
+            dfam = {"family": "gated", "spec": {"name": "dsel", "nodes": [
+                {"k": "ifelse", "name": "pick", "params": [{"n": "s"}], "key": "s", "t": "ta", "f": "tb", "table": [True, False], "open": False},
+                {"k": "fn", "name": "ta", "params": [{"n": "x"}], "outs": ["oa"]},
+                {"k": "fn", "name": "tb", "params": [{"n": "x"}], "outs": ["ob"]},
+            ], "bind": {}, "selectors": ["s"]}, "inputs": {"s": flag, "x": "run:x"}, "kw": {}}
+            variants(ctx, dfam)
+        ctx.case({"directed": "unproduced-selected-output"}, True)
+        map_call(ctx, -1, force_n=0)
     for i in range(n):
         if i % 6 == 5:
             map_call(ctx, i)
